@@ -601,6 +601,12 @@ impl<'a> FG<'a> {
 
     /// a host call as a statement; the result is consumed by a local so that a misplaced response is visible
     pub fn host_stmt(&mut self, d: u32) {
+        if self.env.mem.is_some() && self.r.chance(1, 6) {
+            // the memory grows right before the call: the configuration captured at an interrupt must keep the new length
+            let n = *self.r.pick(&[1i32, 1, 2, 0]);
+            self.emit(Op::I32Const(n)); self.plain(0x40); self.plain(0x1a);
+            self.st.hit("memory.grow-before-host-call");
+        }
         match self.r.below(4) {
             0 => self.host_call(None, d),
             _ => {
